@@ -200,6 +200,18 @@ def run(shard, rec):
                             add('invert', lambda f, g, mpc, F: secpoly.invert(f, g), poly.invert(a, b))
                             add('powmod-3', lambda f, g, mpc, F: secpoly.powmod(f, -3, g), poly.powmod(a, -3, b))
                 elif fam == 'eval':
+                    # the same public points and the same public length over a sibling prime first (one process, one secpoly class for all fields):
+                    # evaluation is a function of the polynomial and the point, not of what was evaluated before
+                    p2 = 31 if p != 31 else 101
+                    poly2 = GFpX(p2)
+                    a2 = poly2([c % p2 for c in ca])
+                    for x in (3, p - 2, 2):
+                        def sib(f, g, mpc, F, x=x):
+                            F2 = mpc.SecFld(p2)
+                            f2 = mpc.input(secpoly(np.array([c % p2 for c in ca] if mpc.pid == 0 else [0] * la, dtype=object), sectype=F2), senders=0)
+                            return f2(x)
+                        add(f'sibling_prime_call{x if x < 4 else "p-2"}', sib, int(a2(x)), f'scalar:{p2}')
+                    add('call2', lambda f, g, mpc, F: f(2), int(a(2)), 'scalar')
                     for x in (0, 1, 3, p - 2):
                         add(f'call{x}', lambda f, g, mpc, F, x=x: f(x), int(a(x)), 'scalar')
                         crosscheck('eval', int(a(x)), ref.peval(A, x, p), case)
@@ -283,7 +295,7 @@ def run(shard, rec):
                         if kind == 'poly':
                             okv = as_list(got) == as_list(expected if not isinstance(expected, int) else poly(expected))
                         else:
-                            okv = (int(got) - int(expected)) % p == 0
+                            okv = (int(got) - int(expected)) % (int(kind.split(':')[1]) if ':' in kind else p) == 0
                         if not okv:
                             bad = bad or (name, got, expected)
                             extra_f = {}
